@@ -1104,7 +1104,6 @@ stream_encoder_mt_init(lzma_next_coder *next, const lzma_allocator *allocator,
 	coder->sequence = SEQ_STREAM_HEADER;
 	coder->block_size = (size_t)(block_size);
 	coder->outbuf_alloc_size = (size_t)(outbuf_size_max);
-	coder->thread_error = LZMA_OK;
 	coder->thr = NULL;
 
 	// Allocate the thread-specific base structures.
@@ -1130,6 +1129,12 @@ stream_encoder_mt_init(lzma_next_coder *next, const lzma_allocator *allocator,
 		// threads to stop and wait until they have stopped.
 		threads_stop(coder, true);
 	}
+
+	// This must be done after the threads have been stopped or ended.
+	// Otherwise a worker thread from the previous use of this coder
+	// could still set an error which would then be returned to
+	// the application by the first lzma_code() call of the new session.
+	coder->thread_error = LZMA_OK;
 
 	// Output queue
 	return_if_error(lzma_outq_init(&coder->outq, allocator,
